@@ -116,6 +116,40 @@ pub mod rust_decimal {
         #[verifier::external_body] fn mul(self, rhs: Decimal) -> (r: Decimal) ensures r@ == self@ * rhs@ { unimplemented!() } }
     impl std::ops::Div for Decimal { type Output = Decimal;
         #[verifier::external_body] fn div(self, rhs: Decimal) -> (r: Decimal) ensures r@ == self@ / rhs@ { unimplemented!() } }
+    impl std::ops::AddAssign for Decimal {
+        #[verifier::external_body] fn add_assign(&mut self, rhs: Decimal) ensures final(self)@ == old(self)@ + rhs@ { unimplemented!() } }
+    impl vstd::std_specs::ops::AddAssignSpecImpl for Decimal {
+        open spec fn obeys_add_assign_spec() -> bool { false }
+        open spec fn add_assign_req(&self, rhs: Decimal) -> bool { true }
+        uninterp spec fn add_assign_spec(&self, rhs: Decimal) -> &Decimal; }
+    impl<'a> std::ops::Add<Decimal> for &'a Decimal { type Output = Decimal;
+        #[verifier::external_body] fn add(self, rhs: Decimal) -> (r: Decimal) ensures r@ == self@ + rhs@ { unimplemented!() } }
+    impl<'a> vstd::std_specs::ops::AddSpecImpl<Decimal> for &'a Decimal {
+        open spec fn obeys_add_spec() -> bool { false }
+        open spec fn add_req(self, rhs: Decimal) -> bool { true }
+        uninterp spec fn add_spec(self, rhs: Decimal) -> Decimal; }
+    impl<'a, 'b> std::ops::Add<&'b Decimal> for &'a Decimal { type Output = Decimal;
+        #[verifier::external_body] fn add(self, rhs: &'b Decimal) -> (r: Decimal) ensures r@ == self@ + rhs@ { unimplemented!() } }
+    impl<'a, 'b> vstd::std_specs::ops::AddSpecImpl<&'b Decimal> for &'a Decimal {
+        open spec fn obeys_add_spec() -> bool { false }
+        open spec fn add_req(self, rhs: &'b Decimal) -> bool { true }
+        uninterp spec fn add_spec(self, rhs: &'b Decimal) -> Decimal; }
+    impl std::ops::MulAssign for Decimal {
+        #[verifier::external_body] fn mul_assign(&mut self, rhs: Decimal) ensures final(self)@ == old(self)@ * rhs@ { unimplemented!() } }
+    impl vstd::std_specs::ops::MulAssignSpecImpl for Decimal {
+        open spec fn obeys_mul_assign_spec() -> bool { false }
+        open spec fn mul_assign_req(&self, rhs: Decimal) -> bool { true }
+        uninterp spec fn mul_assign_spec(&self, rhs: Decimal) -> &Decimal; }
+    impl std::ops::SubAssign for Decimal {
+        #[verifier::external_body] fn sub_assign(&mut self, rhs: Decimal) ensures final(self)@ == old(self)@ - rhs@ { unimplemented!() } }
+    impl vstd::std_specs::ops::SubAssignSpecImpl for Decimal {
+        open spec fn obeys_sub_assign_spec() -> bool { false }
+        open spec fn sub_assign_req(&self, rhs: Decimal) -> bool { true }
+        uninterp spec fn sub_assign_spec(&self, rhs: Decimal) -> &Decimal; }
+    impl From<usize> for Decimal { #[verifier::external_body] fn from(n: usize) -> (r: Decimal) ensures r@ == n as real { unimplemented!() } }
+    impl vstd::std_specs::convert::FromSpecImpl<usize> for Decimal {
+        open spec fn obeys_from_spec() -> bool { false }
+        uninterp spec fn from_spec(v: usize) -> Decimal; }
     impl vstd::std_specs::ops::AddSpecImpl for Decimal {
         open spec fn obeys_add_spec() -> bool { false }
         open spec fn add_req(self, rhs: Decimal) -> bool { true }
